@@ -5,6 +5,7 @@ spelling the printer (and output.py, for class keywords) chooses is a spelling
 the stub reader recognises.  Does NOT decide the parse-then-print fixed point.
 """
 import ast
+import copy
 import keyword as _keyword
 import re
 import re._parser as _sre_parser
@@ -19,22 +20,45 @@ EXPLANATION = (
     "(pytd/printer.py, plus the class keywords output.py emits) and the stub "
     "reader (pyi/parser.py, pyi/definitions.py, pyi/classdef.py, "
     "pytd/codegen/function.py, stubs/builtins/typing.pytd), evaluated on the "
-    "AST: R5.1 every concrete pytd Node class has a Visit<Class> in "
+    "AST.  Printer methods are found by what `PrintVisitor().<name>` resolves "
+    "to (own methods, then module-local bases / mixins in MRO order), and "
+    "`self.<helper>(..)` calls are followed into the helper where a rule "
+    "needs the statements a Visit method delegates.  "
+    "R5.1 every concrete pytd Node class has a Visit<Class> in "
     "PrintVisitor; R5.2 every typing member the printer names "
-    "(_FromTyping/_LookupTypingMember literals, typing imports, "
-    "decrement_typing_count literals) is defined in typing.pytd; R5.3 each "
+    "(_FromTyping/_LookupTypingMember arguments that are literals or "
+    "conditional expressions over literals - every arm is checked -, typing "
+    "imports, decrement_typing_count literals) is defined in typing.pytd; a "
+    "non-literal argument is accepted only as the suffix of a printed name "
+    "(`prefix, _, suffix = <param>.name.rpartition('.')`, bound once) on a "
+    "path whose condition contains `prefix == 'typing'/'typing_extensions'` "
+    "(enclosing tests or negated earlier early exits, in whichever method "
+    "the call sits); R5.3 each "
     "decorator the printer emits for a method kind/flag is the spelling the "
-    "reader maps back to that same kind/flag, bare names are matched by base "
+    "reader maps back to that same kind/flag: the decorator text is the local "
+    "VisitFunction writes immediately before `def `, its `+=` sites are "
+    "collected in VisitFunction and in the one helper that builds it when it "
+    "is bound by `x = self._Helper(.., node, ..)` (the helper must return one "
+    "local on every path; the node and name variables are identified by "
+    "binding, not by spelling), each with its path condition; "
+    "bare names are matched by base "
     "name in Definitions.matches_type, and the special spellings 'nothing', "
-    "'Never' and 'None' are read back as NothingType/NoneType; R5.4 the "
+    "'Never' and 'None' are read back as NothingType/NoneType (the name "
+    "abbreviated to None is the one literal equality in the path condition "
+    "of the single place where VisitNamedType returns \"None\": if/else, guard "
+    "clause or conditional expression); R5.4 the "
     "keyword mangling f-string and the un-mangling regex describe the same "
     "language and round-trip every Python keyword; R5.5 the fixpoint witness "
-    "canonical_pyi is parse -> canonical order -> verify -> Print, and "
+    "canonical_pyi is parse -> canonical order -> verify -> Print (visits "
+    "chained in one expression or spread over rebound locals; a step the "
+    "rule does not know is an analysis error, not a verdict), "
+    "pytd_utils.Print visits with printer.PrintVisitor (constructed inline or "
+    "in a local bound once, unconditionally), and "
     "generate_pyi prints exactly the verified, canonically ordered AST; R5.6 "
     "two name sets are extracted per method kind K and must be EQUAL: the "
-    "names for which VisitFunction omits @staticmethod/@classmethod (negative "
+    "names for which the printer omits @staticmethod/@classmethod (negative "
     "name literals `!=` / `not in <foldable collection>` in the path "
-    "condition of the `decorators +=`, over all enclosing and elif-residue "
+    "condition of the decorator `+=`, over all enclosing and elif-residue "
     "guards) and the names for which merge_method_signatures infers K without "
     "a decorator (`name == lit` / `name in <literal or module constant>` "
     "disjuncts of the kind chain, earlier arms winning).  printer-only name: "
@@ -43,14 +67,25 @@ EXPLANATION = (
     "re-printed with the decorator.  Not decided by R5.6: whether output.py "
     "emits kind K for those names in the first place; R5.7 class keywords "
     "output.py emits are accepted by classdef.get_keywords; R5.8 "
-    "TypeVar/ParamSpec constructor names and keyword arguments the printer "
+    "TypeVar/ParamSpec constructor names (chosen by if/else or by a "
+    "conditional-expression argument on isinstance(<loop variable>, "
+    "pytd.ParamSpec)) and keyword arguments the printer "
     "writes are accepted by the reader; R5.9 decisions the printer takes on "
     "already-printed child text are content-safe (no tuple-unpacked unbounded "
-    "split, no substring test choosing the Callable form); R5.10 the "
-    "functional TypedDict form prints the class keywords output.py emits; "
+    "split; every test VisitCallableType evaluates - if/elif arms, "
+    "early-return ifs, conditional expressions - is one of the two "
+    "recognised form tests and none is a substring test); R5.10 the "
+    "functional TypedDict form (returned by VisitClass itself or by a helper "
+    "whose result VisitClass returns) prints the class keywords output.py "
+    "emits: taint from `<node>.keywords` is propagated through locals and "
+    "through the parameters and return values of the PrintVisitor methods "
+    "called on the way; "
     "R5.12 no slice bound -len(X) unless X is known non-empty; R5.13 symbolic "
     "execution of PrintVisitor.VisitClass over the truth values of the member "
-    "fields (node.classes/constants/methods/slots, derived from the code): on "
+    "fields (node.classes/constants/methods/slots, derived from the code; "
+    "lists returned by `self.<helper>(..)` are obtained by executing the "
+    "helper with the same engine, arguments that are the node or attributes "
+    "of it substituted for the helper's parameters): on "
     "every feasible path the header gets the ' ...' suffix iff every list "
     "joined after the header is empty (suffix + indented body does not parse; "
     "no suffix + no body does not parse either).  "
@@ -74,8 +109,22 @@ ASSUMPTIONS = [
     "ordering inside the Visit* methods are out of reach of a static argument",
     "R5.13: every printed nested class / method / constant has at least one "
     "line (so sum((m.splitlines() for m in X), []) and a comprehension over X "
-    "are empty exactly when X is); loops in VisitClass do not touch the body "
-    "lists (locals bound in a loop become unknown)",
+    "are empty exactly when X is); loops in VisitClass and its helpers do not "
+    "touch the body lists (locals bound in a loop become unknown; a return "
+    "inside a loop, try/with in a helper make the helper's result unknown); "
+    "functions that are not PrintVisitor methods do not modify their "
+    "arguments in place (a PrintVisitor method that may - subscript/attribute "
+    "stores, augmented assignment, list/set/dict mutators, also via a method "
+    "it hands the argument on to - makes the caller's local unknown or is "
+    "an analysis error)",
+    "`self.<m>(..)` inside a PrintVisitor method runs the undecorated method "
+    "<m> that PrintVisitor defines or inherits from a class of the same module "
+    "(PrintVisitor is not subclassed and no instance attribute shadows a "
+    "method); methods inherited from base_visitor.Visitor are not followed",
+    "R5.3/R5.6: a helper that is not handed the printed node and (with "
+    "everything it calls on self) reads none of kind / is_abstract / "
+    "is_coroutine / is_final / signatures only re-prints declared decorators "
+    "and contributes no kind/flag decorator",
 ]
 
 PRINTER = "pytype/pytd/printer.py"
@@ -135,14 +184,152 @@ def node_ancestors(ctx, name):
   return out
 
 
+def local_mro(mod, clsname):
+  """C3 linearisation of `clsname` restricted to the classes defined at the
+  top level of `mod` (bases defined elsewhere are left out)."""
+  def lin(name, active):
+    if name in active:
+      raise AnalysisError(f"{mod.rel}: class {name} inherits from itself")
+    cd = mod.classes[name]
+    bases = [dotted(b) for b in cd.bases]
+    local = [b for b in bases if b in mod.classes]
+    seqs = [lin(b, active | {name}) for b in local] + [list(local)]
+    out = [name]
+    seqs = [s for s in seqs if s]
+    while seqs:
+      for s in seqs:
+        head = s[0]
+        if not any(head in t[1:] for t in seqs):
+          break
+      else:
+        raise AnalysisError(f"{mod.rel}: inconsistent MRO below {name}")
+      out.append(head)
+      seqs = [[x for x in s if x != head] for s in seqs]
+      seqs = [s for s in seqs if s]
+    return out
+  mod.cls(clsname)
+  return lin(clsname, frozenset())
+
+
+def class_methods(mod, clsname):
+  """name -> def for the methods `clsname` has at run time as far as they are
+  defined in this module: its own and those inherited from module-local
+  bases / mixins (first class in the MRO wins)."""
+  out = {}
+  for c in local_mro(mod, clsname):
+    for name, fn in mod.methods(c).items():
+      out.setdefault(name, fn)
+  return out
+
+
+def class_method(mod, clsname, meth):
+  """The def `clsname().<meth>` resolves to (local MRO); AnalysisError if gone."""
+  fn = class_methods(mod, clsname).get(meth)
+  if fn is None:
+    raise AnalysisError(f"anchor {clsname}.{meth} not found in {mod.rel} "
+                        "(own methods and module-local bases searched)")
+  return fn
+
+
+def _pv_method(pmod, meth):
+  return class_method(pmod, "PrintVisitor", meth)
+
+
+def _node_param(fn):
+  """Name of the visited-node parameter of a Visit*/helper method."""
+  a = fn.args.posonlyargs + fn.args.args
+  if len(a) < 2:
+    raise AnalysisError(f"{fn.name}: no node parameter")
+  return a[1].arg
+
+
+def self_callee(mod, clsname, call):
+  """def a `self.<m>(...)` call resolves to in `clsname` (local MRO), or None."""
+  if isinstance(call, ast.Call) and isinstance(call.func, ast.Attribute) and \
+      isinstance(call.func.value, ast.Name) and call.func.value.id == "self":
+    fn = class_methods(mod, clsname).get(call.func.attr)
+    if fn is not None and not fn.decorator_list:
+      return fn
+  return None
+
+
+def bind_args(callee, call):
+  """parameter name -> argument expression of a plain method call (receiver
+  dropped); None if the call uses */** or does not fit the signature."""
+  a = callee.args
+  if a.vararg or a.kwarg or any(isinstance(x, ast.Starred) for x in call.args) \
+      or any(k.arg is None for k in call.keywords):
+    return None
+  pos = [p.arg for p in a.posonlyargs + a.args][1:]
+  if len(call.args) > len(pos):
+    return None
+  out = dict(zip(pos, call.args))
+  named = pos[max(len(a.posonlyargs) - 1, 0):] + [p.arg for p in a.kwonlyargs]
+  for k in call.keywords:
+    if k.arg in out or k.arg not in named:
+      return None
+    out[k.arg] = k.value
+  defaults = dict(zip(reversed([p.arg for p in a.posonlyargs + a.args]),
+                      reversed(a.defaults)))
+  defaults.update({p.arg: d for p, d in zip(a.kwonlyargs, a.kw_defaults)
+                   if d is not None})
+  for p in pos + [p.arg for p in a.kwonlyargs]:
+    if p not in out:
+      if p not in defaults:
+        return None
+      out[p] = defaults[p]
+  return out
+
+
+def once_bound(fn, name):
+  """The value of local `name` when it is bound exactly once in `fn`, by a
+  plain `name = value` statement of the function's own top-level block (so
+  the binding is unconditional); else None."""
+  stores = [n for n in ast.walk(fn) if isinstance(n, ast.Name) and n.id == name
+            and not isinstance(n.ctx, ast.Load)]
+  params = [a.arg for a in fn.args.posonlyargs + fn.args.args + fn.args.kwonlyargs]
+  if len(stores) != 1 or name in params or \
+      (fn.args.vararg and fn.args.vararg.arg == name) or \
+      (fn.args.kwarg and fn.args.kwarg.arg == name):
+    return None
+  for st in fn.body:
+    if isinstance(st, ast.Assign) and len(st.targets) == 1 and \
+        st.targets[0] is stores[0]:
+      return st.value
+  return None
+
+
+def once_bound_anywhere(fn, name):
+  """The one statement that binds local `name` in `fn` (an Assign to the bare
+  name, anywhere in the body), or None if it is bound more than once / is a
+  parameter / is bound by something else."""
+  stores = [n for n in ast.walk(fn) if isinstance(n, ast.Name) and n.id == name
+            and not isinstance(n.ctx, ast.Load)]
+  a = fn.args
+  params = [x.arg for x in a.posonlyargs + a.args + a.kwonlyargs
+            + [y for y in (a.vararg, a.kwarg) if y]]
+  if len(stores) != 1 or name in params:
+    return None
+  for st in walk_no_nested(fn):
+    if isinstance(st, ast.Assign) and len(st.targets) == 1 and \
+        st.targets[0] is stores[0]:
+      return st
+  return None
+
+
 def printer_visits(ctx):
-  """Visit<Class> suffixes defined by PrintVisitor -> def node."""
+  """Visit<Class> suffixes defined by PrintVisitor -> def node (methods
+  inherited from module-local bases / mixins included)."""
   mod = get_module(ctx, PRINTER)
-  cd = mod.cls("PrintVisitor")
-  bases = [dotted(b) for b in cd.bases]
-  if bases != ["base_visitor.Visitor"]:
-    raise AnalysisError(f"PrintVisitor bases {bases}: inheritance not understood")
-  return {n[len("Visit"):]: fn for n, fn in mod.methods("PrintVisitor").items()
+  foreign = set()
+  for c in local_mro(mod, "PrintVisitor"):
+    for b in mod.classes[c].bases:
+      if dotted(b) not in mod.classes:
+        foreign.add(dotted(b))
+  if foreign != {"base_visitor.Visitor"}:
+    raise AnalysisError(
+        f"PrintVisitor bases {sorted(map(str, foreign))}: inheritance not understood")
+  return {n[len("Visit"):]: fn for n, fn in class_methods(mod, "PrintVisitor").items()
           if n.startswith("Visit") and len(n) > len("Visit")}
 
 
@@ -194,6 +381,19 @@ def _const_str(node):
       isinstance(node.value, str) else None
 
 
+def literal_arms(expr):
+  """[(str literal, [(test, polarity)])] for a string literal or a (nested)
+  conditional expression whose arms are all string literals; else None."""
+  if _const_str(expr) is not None:
+    return [(_const_str(expr), [])]
+  if isinstance(expr, ast.IfExp):
+    a, b = literal_arms(expr.body), literal_arms(expr.orelse)
+    if a is not None and b is not None:
+      return [(l, [(expr.test, True)] + c) for l, c in a] + \
+             [(l, [(expr.test, False)] + c) for l, c in b]
+  return None
+
+
 def _self_calls(fn_or_tree, meth):
   return [c for c in calls_in(fn_or_tree) if dotted(c.func) == f"self.{meth}"]
 
@@ -222,37 +422,57 @@ def r5_1(ctx):
 # -- R5.2 ------------------------------------------------------------------------
 
 def _forwarded_typing_call_ok(pmod, call):
-  """`self._FromTyping(suffix)` inside VisitNamedType under a typing prefix."""
+  """`self._FromTyping(suffix)` under a typing prefix: the member name is the
+  last component of a printed node's own name `typing.<suffix>` /
+  `typing_extensions.<suffix>`.
+
+  Recognised in any method (the body of VisitNamedType may live in a helper):
+  `suffix` is bound exactly once in the enclosing function, by
+  `prefix, _, suffix = <param>.name.rpartition(".")`, and the path condition
+  of the call (enclosing tests and negated earlier early exits) contains a
+  positive `prefix == "typing"` / `"typing_extensions"`.  Returns the prefix
+  literal, or None when the call is not of that shape."""
   fn = pmod.enclosing_function(call)
-  if fn is None or fn.name != "VisitNamedType" or len(call.args) != 1 or \
+  if fn is None or isinstance(fn, ast.Lambda) or len(call.args) != 1 or \
       not isinstance(call.args[0], ast.Name):
     return None
   var = call.args[0].id
-  # var must be bound exactly once, by `prefix, _, var = node.name.rpartition(".")`
-  binds = []
-  for n in walk_no_nested(fn):
-    if isinstance(n, ast.Assign):
-      for t in n.targets:
-        for sub in ast.walk(t):
-          if isinstance(sub, ast.Name) and sub.id == var:
-            binds.append(n)
+  params = {a.arg for a in (fn.args.posonlyargs + fn.args.args)[1:]}
+  if var in params:
+    return None
+  binds = [n for n in ast.walk(fn) if isinstance(n, ast.Name) and n.id == var
+           and not isinstance(n.ctx, ast.Load)]
   if len(binds) != 1:
     return None
-  b = binds[0]
-  if not (isinstance(b.targets[0], ast.Tuple) and len(b.targets[0].elts) == 3
-          and dotted(b.targets[0].elts[2]) == var
-          and isinstance(b.value, ast.Call)
-          and dotted(b.value.func) == "node.name.rpartition"
+  b = pmod.enclosing_stmt(binds[0])
+  if not (isinstance(b, ast.Assign) and len(b.targets) == 1
+          and isinstance(b.targets[0], ast.Tuple) and len(b.targets[0].elts) == 3
+          and b.targets[0].elts[2] is binds[0]
+          and isinstance(b.targets[0].elts[0], ast.Name)
+          and isinstance(b.value, ast.Call) and len(b.value.args) == 1
+          and not b.value.keywords
+          and isinstance(b.value.func, ast.Attribute)
+          and b.value.func.attr == "rpartition"
+          and dotted(b.value.func.value) in {f"{p}.name" for p in params}
           and _const_str(b.value.args[0]) == "."):
     return None
-  prefix = dotted(b.targets[0].elts[0])
+  prefix = b.targets[0].elts[0].id
+  # the prefix local must not be rebound either
+  if sum(isinstance(n, ast.Name) and n.id == prefix and not isinstance(n.ctx, ast.Load)
+         for n in ast.walk(fn)) != 1:
+    return None
   g = flow.guards(pmod.parent, pmod.enclosing_stmt(call), stop=fn)
   for test, pol in g:
-    if pol and isinstance(test, ast.Compare) and len(test.ops) == 1 and \
-        isinstance(test.ops[0], ast.Eq) and dotted(test.left) == prefix:
-      lit = _const_str(test.comparators[0])
-      if lit in ("typing", "typing_extensions"):
-        return lit
+    while isinstance(test, ast.UnaryOp) and isinstance(test.op, ast.Not):
+      test, pol = test.operand, not pol
+    if isinstance(test, ast.Compare) and len(test.ops) == 1 and \
+        isinstance(test.ops[0], (ast.Eq, ast.NotEq)) and \
+        isinstance(test.ops[0], ast.Eq) == pol:
+      l, r = test.left, test.comparators[0]
+      if dotted(r) == prefix:
+        l, r = r, l
+      if dotted(l) == prefix and _const_str(r) in ("typing", "typing_extensions"):
+        return _const_str(r)
   return None
 
 
@@ -261,7 +481,7 @@ def r5_2(ctx):
   """Typing members the printer names are defined in typing.pytd."""
   pmod = get_module(ctx, PRINTER)
   typing_names = stub_toplevel(ctx, TYPING)
-  cd = pmod.cls("PrintVisitor")
+  scopes = [pmod.classes[c] for c in local_mro(pmod, "PrintVisitor")]
   seen = {}
 
   def want(kind, lit, line):
@@ -276,14 +496,14 @@ def r5_2(ctx):
                                               "defined": lit in typing_names})
 
   for meth in ("_FromTyping", "_LookupTypingMember"):
-    if meth not in pmod.methods("PrintVisitor"):
-      raise AnalysisError(f"anchor PrintVisitor.{meth} not found")
-    for call in _self_calls(cd, meth):
+    _pv_method(pmod, meth)
+    for call in [c for cd in scopes for c in _self_calls(cd, meth)]:
       if len(call.args) != 1 or call.keywords:
         raise AnalysisError(f"{meth} call shape not understood: {src(call)}")
-      lit = _const_str(call.args[0])
-      if lit is not None:
-        want(meth, lit, call.lineno)
+      arms = literal_arms(call.args[0])
+      if arms is not None:
+        for lit, _ in arms:     # every arm of a conditional argument is named
+          want(meth, lit, call.lineno)
         continue
       pre = _forwarded_typing_call_ok(pmod, call)
       if pre is None:
@@ -296,7 +516,7 @@ def r5_2(ctx):
       ctx.ok(f"{key}#{n}", PRINTER, call.lineno,
              {"forwarded": src(call.args[0]), "guard": f"prefix == {pre!r}"})
   # typing imports added by full name, and counter bookkeeping by member name
-  for call in calls_in(cd):
+  for call in [c for cd in scopes for c in calls_in(cd)]:
     d = dotted(call.func)
     if d == "self._imports.add" and call.args:
       lit = _const_str(call.args[0])
@@ -316,46 +536,168 @@ _FLAG_ATTRS = {"is_abstract": "abstract", "is_coroutine": "coroutine",
                "is_final": "final"}
 
 
+def _flat_add(e):
+  if isinstance(e, ast.BinOp) and isinstance(e.op, ast.Add):
+    return _flat_add(e.left) + _flat_add(e.right)
+  return [e]
+
+
+def _text_before_def(fn):
+  """Name of the local whose text VisitFunction writes immediately before the
+  `def ` of every signature (`<var> + "def " + ...` or f"{<var>}def ...")."""
+  found = set()
+  for n in walk_no_nested(fn):
+    parts = []
+    if isinstance(n, ast.BinOp) and isinstance(n.op, ast.Add):
+      parts = _flat_add(n)
+    elif isinstance(n, ast.JoinedStr):
+      parts = [v.value if isinstance(v, ast.FormattedValue) and v.conversion == -1
+               and v.format_spec is None else v for v in n.values]
+    for i, prt in enumerate(parts):
+      if (_const_str(prt) or "").startswith("def "):
+        if i == 0 or not isinstance(parts[i - 1], ast.Name):
+          raise AnalysisError(
+              f"{fn.name}: the text written before 'def ' is not a local: {src(n)[:80]}")
+        found.add(parts[i - 1].id)
+  if len(found) != 1:
+    raise AnalysisError(
+        f"{fn.name}: expected one local written before 'def ', found {sorted(found)}")
+  return found.pop()
+
+
+_KIND_ATTRS = frozenset({"kind", "signatures"} | set(_FLAG_ATTRS))
+
+
+def _kind_blind(pmod, fn):
+  """`fn` and every PrintVisitor method it can reach through `self.<m>(..)`
+  read none of the attributes a kind/flag decorator is derived from."""
+  seen, todo = set(), [fn]
+  while todo:
+    f = todo.pop()
+    if f in seen:
+      continue
+    seen.add(f)
+    for n in ast.walk(f):
+      if isinstance(n, ast.Attribute) and n.attr in _KIND_ATTRS:
+        return False
+      if isinstance(n, ast.Call) and dotted(n.func) in ("getattr", "vars"):
+        return False
+      c = self_callee(pmod, "PrintVisitor", n)
+      if c is not None:
+        todo.append(c)
+  return True
+
+
+def _decorator_sites(pmod, fn, var, node, depth=0):
+  """Every `var += <text>` that contributes to decorator variable `var` of
+  `fn`: [(function, AugAssign, node parameter name)].
+
+  `var = self._Helper(.., node, ..)` (an unconditional statement of the
+  function's own block, helper resolved through the local MRO) is followed
+  into the helper: every return of the helper must return one and the same
+  local, whose `+=` sites are collected with the helper's own path conditions
+  and the helper's name for the node.  A helper that is not handed the
+  printed node is skipped only if neither it nor anything it calls on `self`
+  reads kind / is_* / signatures (it re-prints the declared decorators and
+  cannot decide on the method kind).  Any other way decorator text could
+  reach `var` is an analysis error."""
+  out = []
+  for n in walk_no_nested(fn):
+    if not isinstance(n, (ast.stmt, ast.NamedExpr, ast.comprehension)):
+      continue
+    if isinstance(n, ast.AugAssign):
+      if var in _names_stored(n.target):
+        if not (isinstance(n.target, ast.Name) and isinstance(n.op, ast.Add)):
+          raise AnalysisError(f"{fn.name}: {var} updated with non-+=")
+        out.append((fn, n, node))
+      continue
+    if isinstance(n, ast.Assign):
+      stored = set().union(*[_names_stored(t) for t in n.targets])
+    elif isinstance(n, (ast.If, ast.While, ast.Try, ast.Expr, ast.Return)):
+      continue      # their sub-statements are visited on their own
+    else:
+      stored = set().union(*[_names_stored(c) for c in ast.iter_child_nodes(n)
+                             if not isinstance(c, ast.stmt)])
+    if var not in stored:
+      continue
+    if not (isinstance(n, ast.Assign) and len(n.targets) == 1
+            and isinstance(n.targets[0], ast.Name)):
+      raise AnalysisError(f"{fn.name}: binding of {var} not understood: {src(n)[:80]}")
+    value = n.value
+    callee = self_callee(pmod, "PrintVisitor", value)
+    bind = bind_args(callee, value) if callee is not None else None
+    hnode = [p for p, a in (bind or {}).items()
+             if isinstance(a, ast.Name) and a.id == node]
+    if callee is not None and len(hnode) == 1:
+      rets = [r for r in walk_no_nested(callee) if isinstance(r, ast.Return)]
+      rvars = {r.value.id if isinstance(r.value, ast.Name) else None for r in rets}
+      if depth >= 2 or n not in fn.body or len(rvars) != 1 or None in rvars or \
+          not flow.terminates(callee.body):
+        raise AnalysisError(
+            f"{fn.name}: {var} = {src(value)[:60]}: decorator helper not "
+            "understood (it must be called unconditionally and return one "
+            "local on every path)")
+      out += _decorator_sites(pmod, callee, rvars.pop(), hnode[0], depth + 1)
+      continue
+    # a (re)initialisation: must not carry kind/flag decorator text itself,
+    # directly or through the locals it is computed from
+    seen, todo = {var}, [value]
+    while todo:
+      v = todo.pop()
+      if any((_const_str(c) or "").startswith("@") and len(_const_str(c)) > 1
+             for c in ast.walk(v)):
+        raise AnalysisError(
+            f"{fn.name}: {var} bound to decorator text by something other than "
+            f"+=: {src(n)[:80]}")
+      for c in calls_in(v):
+        h = self_callee(pmod, "PrintVisitor", c)
+        if h is not None and not _kind_blind(pmod, h):
+          raise AnalysisError(
+              f"{fn.name}: {var} is built from {src(c)[:60]}, which can see the "
+              "method kind/flags but is not a recognised decorator helper")
+      for nm in ast.walk(v):
+        if isinstance(nm, ast.Name) and nm.id not in seen:
+          seen.add(nm.id)
+          for b in walk_no_nested(fn):
+            if isinstance(b, (ast.Assign, ast.AugAssign, ast.AnnAssign)) and \
+                b.value is not None and nm.id in _names_stored(b):
+              todo.append(b.value)
+            elif isinstance(b, (ast.For, ast.comprehension)) and \
+                nm.id in _names_stored(b.target):
+              todo.append(b.iter)
+  return out
+
+
 def printer_decorators(ctx):
-  """What VisitFunction appends to `decorators`, with the guarding fact.
+  """What VisitFunction writes in front of `def`, with the guarding fact.
 
   Returns a list of dicts: {"spelling", "typing": bool, "why": ("kind", K,
   [exempt names]) | ("flag", x) | ("overload",), "line"}.
   """
   def build():
     pmod = get_module(ctx, PRINTER)
-    fn = pmod.func("PrintVisitor.VisitFunction")
-    # names bound to node.name
-    name_vars = {"node.name"}
-    for n in walk_no_nested(fn):
-      if isinstance(n, ast.Assign) and dotted(n.value) == "node.name":
-        for t in n.targets:
-          if isinstance(t, ast.Name):
-            name_vars.add(t.id)
+    top = _pv_method(pmod, "VisitFunction")
     out = []
-    for n in walk_no_nested(fn):
-      if not (isinstance(n, ast.AugAssign) and dotted(n.target) == "decorators"):
-        continue
-      if not isinstance(n.op, ast.Add):
-        raise AnalysisError("VisitFunction: decorators updated with non-+=")
+    for fn, n, node in _decorator_sites(pmod, top, _text_before_def(top),
+                                        _node_param(top)):
+      # names bound to node.name
+      name_vars = {f"{node}.name"}
+      for a in walk_no_nested(fn):
+        if isinstance(a, ast.Assign) and dotted(a.value) == f"{node}.name":
+          for t in a.targets:
+            if isinstance(t, ast.Name) and once_bound(fn, t.id) is a.value:
+              name_vars.add(t.id)
       v = n.value
       lit = _const_str(v)
       typing_dec = False
       if lit is not None:
         m = re.fullmatch(r"@([A-Za-z_][\w.]*)\n", lit)
         if not m:
-          raise AnalysisError(f"VisitFunction: decorator text {lit!r} not understood")
+          raise AnalysisError(f"{fn.name}: decorator text {lit!r} not understood")
         spelling = m.group(1)
       else:
         # "@" + self._FromTyping("x") + "\n"
-        parts = []
-        def flat(e):
-          if isinstance(e, ast.BinOp) and isinstance(e.op, ast.Add):
-            flat(e.left)
-            flat(e.right)
-          else:
-            parts.append(e)
-        flat(v)
+        parts = _flat_add(v)
         if not (len(parts) == 3 and _const_str(parts[0]) == "@"
                 and _const_str(parts[2]) == "\n"
                 and isinstance(parts[1], ast.Call)
@@ -363,17 +705,17 @@ def printer_decorators(ctx):
                 and len(parts[1].args) == 1
                 and _const_str(parts[1].args[0]) is not None):
           raise AnalysisError(
-              f"VisitFunction: decorator expression not understood: {src(v)}")
+              f"{fn.name}: decorator expression not understood: {src(v)}")
         spelling = _const_str(parts[1].args[0])
         typing_dec = True
       g = flow.guards(pmod.parent, n, stop=fn)
       if not any(pol for _, pol in g):
         raise AnalysisError(
-            f"VisitFunction: @{spelling} is not under a positive guard")
-      why = _classify_guard(g, name_vars, pmod)
+            f"{fn.name}: @{spelling} is not under a positive guard")
+      why = _classify_guard(g, name_vars, pmod, node)
       if why is None:
         raise AnalysisError(
-            f"VisitFunction: guard of @{spelling} not understood: "
+            f"{fn.name}: guard of @{spelling} not understood: "
             + " / ".join(("" if pol else "not ") + src(t) for t, pol in g))
       out.append({"spelling": spelling, "typing": typing_dec, "why": why,
                   "line": n.lineno})
@@ -408,18 +750,18 @@ def _name_atom(c, name_vars, mod):
   return None
 
 
-def _kind_atom(c):
+def _kind_atom(c, node="node"):
   if isinstance(c, ast.Compare) and len(c.ops) == 1 and \
       isinstance(c.ops[0], (ast.Eq, ast.Is)):
     l, r = dotted(c.left), dotted(c.comparators[0])
-    if r == "node.kind":
+    if r == f"{node}.kind":
       l, r = r, l
-    if l == "node.kind" and (r or "").startswith("pytd.MethodKind."):
+    if l == f"{node}.kind" and (r or "").startswith("pytd.MethodKind."):
       return r.rsplit(".", 1)[1]
   return None
 
 
-def _classify_guard(guards, name_vars, mod=None):
+def _classify_guard(guards, name_vars, mod=None, node="node"):
   """The path condition of one `decorators += ...` as a decorator reason.
 
   `guards` is flow.guards() output (or, for convenience, a bare test).  The
@@ -451,7 +793,7 @@ def _classify_guard(guards, name_vars, mod=None):
   exempt = set()
   others = []
   for t, pol in pos:
-    k = _kind_atom(t)
+    k = _kind_atom(t, node)
     if k is not None:
       if pol:
         if kind not in (None, k):
@@ -467,7 +809,7 @@ def _classify_guard(guards, name_vars, mod=None):
       continue
     others.append((t, pol))
   for conj in neg_conj:
-    ks = [_kind_atom(c) for c in conj]
+    ks = [_kind_atom(c, node) for c in conj]
     if kind is not None and any(k is not None and k != kind for k in ks):
       continue
     if any(k is not None for k in ks) or any(
@@ -480,11 +822,11 @@ def _classify_guard(guards, name_vars, mod=None):
     return None
   test = others[0][0]
   d = dotted(test)
-  if d and d.startswith("node.") and d[len("node."):] in _FLAG_ATTRS:
-    return ("flag", _FLAG_ATTRS[d[len("node."):]])
+  if d and d.startswith(node + ".") and d[len(node) + 1:] in _FLAG_ATTRS:
+    return ("flag", _FLAG_ATTRS[d[len(node) + 1:]])
   if isinstance(test, ast.Compare) and len(test.ops) == 1 and \
       isinstance(test.ops[0], ast.Gt) and \
-      src(test.left) == "len(node.signatures)" and \
+      src(test.left) == f"len({node}.signatures)" and \
       try_fold(test.comparators[0]) == 1:
     return ("overload",)
   return None
@@ -631,6 +973,70 @@ def reader_flags(ctx):
   return ctx.memo("c05.reader_flags", build)
 
 
+def _eq_literal_atoms(conds):
+  """[(expr, literal)] for every `expr == <str literal>` that holds under the
+  path condition `conds` ([(test, polarity)]): positive tests are flattened
+  over `and`, negated tests over `or`, `!=` under negation counts as `==`."""
+  out = []
+  def add(t, pol):
+    while isinstance(t, ast.UnaryOp) and isinstance(t.op, ast.Not):
+      t, pol = t.operand, not pol
+    if isinstance(t, ast.BoolOp):
+      if isinstance(t.op, ast.And) == pol:
+        for v in t.values:
+          add(v, pol)
+      return
+    if isinstance(t, ast.Compare) and len(t.ops) == 1 and \
+        isinstance(t.ops[0], (ast.Eq, ast.NotEq)) and \
+        isinstance(t.ops[0], ast.Eq) == pol:
+      l, r = t.left, t.comparators[0]
+      if _const_str(l) is not None:
+        l, r = r, l
+      if _const_str(r) is not None and _const_str(l) is None:
+        out.append((l, _const_str(r)))
+  for t, pol in conds:
+    add(t, pol)
+  return out
+
+
+def _none_abbreviation(pmod):
+  """The name VisitNamedType abbreviates to `None`.
+
+  Every place where VisitNamedType returns the literal "None" (a `return
+  "None"` statement or an arm of a returned conditional expression) is taken
+  with its path condition - enclosing tests, negated earlier early exits
+  (`if name != "NoneType": return name` + `return "None"`), the conditional
+  expression's own test.  Exactly one such place, whose condition contains
+  exactly one `<expr> == <literal>`, is understood."""
+  vnt = _pv_method(pmod, "VisitNamedType")
+  places = []
+  for n in walk_no_nested(vnt):
+    if not isinstance(n, ast.Return) or n.value is None:
+      continue
+    arms = [(n.value, [])]
+    while arms:
+      e, extra = arms.pop()
+      if isinstance(e, ast.IfExp):
+        arms.append((e.body, extra + [(e.test, True)]))
+        arms.append((e.orelse, extra + [(e.test, False)]))
+      elif _const_str(e) == "None":
+        places.append(flow.guards(pmod.parent, n, stop=vnt) + extra)
+      elif any(_const_str(c) == "None" for c in ast.walk(e)):
+        raise AnalysisError(
+            f"VisitNamedType: \"None\" inside a returned expression: {src(e)[:60]}")
+  if not places:
+    raise AnalysisError("VisitNamedType: `None` abbreviation arm not found")
+  if len(places) > 1:
+    raise AnalysisError("VisitNamedType: \"None\" is returned in several places")
+  atoms = _eq_literal_atoms(places[0])
+  if len(atoms) != 1:
+    raise AnalysisError(
+        "VisitNamedType: the condition under which \"None\" is returned is not "
+        "one comparison with a literal: "
+        + " / ".join(("" if pol else "not ") + src(t) for t, pol in places[0]))
+  return atoms[0][1]
+
+
 @rule("R5.3", "C05", floor=11)
 def r5_3(ctx):
   """Decorators and special spellings the printer emits are read back."""
@@ -701,7 +1107,7 @@ def r5_3(ctx):
             "are printed without a module)", {"base_var": base_var})
   # 'nothing'
   pmod = get_module(ctx, PRINTER)
-  vn = pmod.func("PrintVisitor.VisitNothingType")
+  vn = _pv_method(pmod, "VisitNothingType")
   rets = [n for n in walk_no_nested(vn) if isinstance(n, ast.Return)]
   if len(rets) != 1 or _const_str(rets[0].value) is None:
     raise AnalysisError("VisitNothingType: literal return not found")
@@ -725,7 +1131,7 @@ def r5_3(ctx):
             "Definitions.resolve_type must map that name to pytd.NothingType()",
             {"printer": nothing})
   # return position: Never
-  vs = pmod.func("PrintVisitor.VisitSignature")
+  vs = _pv_method(pmod, "VisitSignature")
   alias = cmp_lit = None
   for n in walk_no_nested(vs):
     if isinstance(n, ast.If) and isinstance(n.test, ast.Compare) and \
@@ -753,16 +1159,7 @@ def r5_3(ctx):
             {"alias": alias, "tested": cmp_lit,
              "typing.pytd": src(val) if isinstance(val, ast.AST) else None})
   # NoneType <-> None
-  vnt = pmod.func("PrintVisitor.VisitNamedType")
-  none_name = None
-  for n in walk_no_nested(vnt):
-    if isinstance(n, ast.If) and isinstance(n.test, ast.Compare) and \
-        isinstance(n.test.ops[0], ast.Eq) and \
-        isinstance(n.body[-1], ast.Return) and \
-        _const_str(n.body[-1].value) == "None":
-      none_name = _const_str(n.test.comparators[0])
-  if none_name is None:
-    raise AnalysisError("VisitNamedType: `None` abbreviation arm not found")
+  none_name = _none_abbreviation(pmod)
   amod = get_module(ctx, PARSER)
   vp = amod.func("_AnnotationVisitor.visit_Pyval")
   got = None
@@ -964,18 +1361,25 @@ def r5_5(ctx):
   hist = {}
   verified = set()
   ret = None
+  transforms = {"ClassTypeToNamedType", "CanonicalOrderingVisitor"}
+  def chain_of(e):
+    """The steps that produced the value of expression `e`: ["parse",
+    <visitor>, ...]; visits may be chained in one expression or spread over
+    (re)bound locals.  A step that is not understood starts with "?"."""
+    if isinstance(e, ast.Name):
+      return list(hist.get(e.id, [f"?{e.id}"]))
+    vo = _visit_of(e, transforms)
+    if vo:
+      return chain_of(vo[0]) + [vo[1]]
+    if isinstance(e, ast.Call) and dotted(e.func) in ("parse_string", "parse_pyi") \
+        and e.args and dotted(e.args[0]) == fn.args.args[0].arg:
+      return ["parse"]
+    return [f"?{src(e)[:40]}"]
   for st in stmts:
     if isinstance(st, ast.Assign) and len(st.targets) == 1 and \
         isinstance(st.targets[0], ast.Name):
-      tgt, v = st.targets[0].id, st.value
-      vo = _visit_of(v, {"ClassTypeToNamedType", "CanonicalOrderingVisitor"})
-      if vo and isinstance(vo[0], ast.Name):
-        hist[tgt] = hist.get(vo[0].id, ["?"]) + [vo[1]]
-      elif isinstance(v, ast.Call) and dotted(v.func) in ("parse_string", "parse_pyi") \
-          and v.args and dotted(v.args[0]) == fn.args.args[0].arg:
-        hist[tgt] = ["parse"]
-      else:
-        hist[tgt] = hist.get(tgt, []) + [f"?{src(v)[:40]}"]
+      tgt = st.targets[0].id
+      hist[tgt] = chain_of(st.value)
       verified.discard(tgt)
     elif isinstance(st, ast.Expr):
       vo = _visit_of(st.value, {"VerifyVisitor"})
@@ -983,13 +1387,24 @@ def r5_5(ctx):
         verified.add(vo[0].id)
     elif isinstance(st, ast.Return):
       ret = st
+    elif isinstance(st, (ast.Assign, ast.AugAssign, ast.AnnAssign, ast.Delete)):
+      raise AnalysisError(f"canonical_pyi: statement not understood: {src(st)[:60]}")
   if ret is None or not isinstance(ret.value, ast.Call):
     raise AnalysisError("canonical_pyi: return not understood")
-  printed = ret.value.args[0].id if dotted(ret.value.func) == "pytd_utils.Print" \
-      and ret.value.args and isinstance(ret.value.args[0], ast.Name) else None
-  chain = hist.get(printed, []) if printed else []
-  ok = bool(chain) and chain[0] == "parse" and "CanonicalOrderingVisitor" in chain \
-      and not any(s.startswith("?") for s in chain)
+  if dotted(ret.value.func) == "pytd_utils.Print" and ret.value.args:
+    pe = ret.value.args[0]
+    printed = pe.id if isinstance(pe, ast.Name) else None
+    chain = chain_of(pe)
+  else:
+    printed, chain = None, []
+  unknown = [s for s in chain if s.startswith("?")]
+  if unknown:
+    # a value or transformation the rule does not know: it may or may not
+    # keep the canonical order, so nothing is decided
+    raise AnalysisError(
+        f"canonical_pyi: step {unknown[0][1:]!r} of the printed value is not "
+        f"understood (chain {chain})")
+  ok = bool(chain) and chain[0] == "parse" and "CanonicalOrderingVisitor" in chain
   ctx.check(ok, "canonical_pyi:parse->order->print", PARSER, ret.lineno,
             f"canonical_pyi must return pytd_utils.Print of the canonically "
             f"ordered parse of its argument; chain of the printed value: {chain}",
@@ -1002,14 +1417,29 @@ def r5_5(ctx):
   umod = get_module(ctx, PYTD_UTILS)
   pr = umod.func("Print")
   r = [n for n in walk_no_nested(pr) if isinstance(n, ast.Return)]
-  ok = len(r) == 1 and isinstance(r[0].value, ast.Call) and \
-      isinstance(r[0].value.func, ast.Attribute) and r[0].value.func.attr == "Visit" \
-      and dotted(r[0].value.func.value) == pr.args.args[0].arg and \
-      isinstance(r[0].value.args[0], ast.Call) and \
-      dotted(r[0].value.args[0].func) == "printer.PrintVisitor"
-  ctx.check(ok, "pytd_utils.Print:PrintVisitor", PYTD_UTILS, pr.lineno,
+  if not (len(r) == 1 and pr.body and pr.body[-1] is r[0]
+          and isinstance(r[0].value, ast.Call)
+          and isinstance(r[0].value.func, ast.Attribute)
+          and r[0].value.func.attr == "Visit"
+          and dotted(r[0].value.func.value) == pr.args.args[0].arg
+          and len(r[0].value.args) == 1 and not r[0].value.keywords):
+    raise AnalysisError(
+        "pytd_utils.Print: not a single final `return <ast>.Visit(<visitor>)`")
+  vis = r[0].value.args[0]
+  if isinstance(vis, ast.Name):
+    # the visitor hoisted into a local that is bound once, unconditionally
+    vis = once_bound(pr, vis.id)
+    if vis is None:
+      raise AnalysisError(
+          f"pytd_utils.Print: visitor local `{src(r[0].value.args[0])}` is not "
+          "bound exactly once at the top level of the function")
+  if not isinstance(vis, ast.Call) or dotted(vis.func) is None:
+    raise AnalysisError(
+        f"pytd_utils.Print: visitor expression not understood: {src(vis)[:60]}")
+  ctx.check(dotted(vis.func) == "printer.PrintVisitor",
+            "pytd_utils.Print:PrintVisitor", PYTD_UTILS, pr.lineno,
             "pytd_utils.Print must visit its argument with printer.PrintVisitor",
-            {"returns": src(r[0].value) if r else None})
+            {"returns": src(r[0].value), "visitor": src(vis)})
   co = umod.func("CanonicalOrdering")
   r = [n for n in walk_no_nested(co) if isinstance(n, ast.Return)]
   vo = _visit_of(r[0].value, {"CanonicalOrderingVisitor"}) if len(r) == 1 else None
@@ -1150,7 +1580,7 @@ def r5_7(ctx):
 def r5_8(ctx):
   """TypeVar/ParamSpec declarations the printer writes are accepted."""
   pmod = get_module(ctx, PRINTER)
-  fn = pmod.func("PrintVisitor._FormatTypeParams")
+  fn = _pv_method(pmod, "_FormatTypeParams")
   kws = {}
   for n in walk_no_nested(fn):
     if isinstance(n, ast.JoinedStr) and n.values and \
@@ -1176,15 +1606,32 @@ def r5_8(ctx):
               {"accepted": sorted(accepted)})
   # constructor names
   ctors = {}
+  loop_vars = {n.target.id for n in walk_no_nested(fn)
+               if isinstance(n, (ast.For, ast.comprehension))
+               and isinstance(n.target, ast.Name)}
+  def is_paramspec_test(t):
+    return isinstance(t, ast.Call) and dotted(t.func) == "isinstance" and \
+        len(t.args) == 2 and not t.keywords and \
+        isinstance(t.args[0], ast.Name) and t.args[0].id in loop_vars and \
+        dotted(t.args[1]) == "pytd.ParamSpec"
   for c in _self_calls(fn, "_LookupTypingMember"):
-    lit = _const_str(c.args[0]) if c.args else None
-    if lit is None:
+    arms = literal_arms(c.args[0]) if len(c.args) == 1 and not c.keywords else None
+    if arms is None:
       raise AnalysisError("_FormatTypeParams: constructor name not literal")
-    g = flow.guards(pmod.parent, pmod.enclosing_stmt(c), stop=fn)
-    is_ps = [p for t, p in g if src(t) == "isinstance(t, pytd.ParamSpec)"]
-    if len(is_ps) != 1:
-      raise AnalysisError("_FormatTypeParams: constructor guard not understood")
-    ctors[lit] = ("ParamSpec" if is_ps[0] else "TypeParameter", c.lineno)
+    outer = flow.guards(pmod.parent, pmod.enclosing_stmt(c), stop=fn)
+    for lit, inner in arms:
+      is_ps = []
+      for t, p in outer + inner:
+        while isinstance(t, ast.UnaryOp) and isinstance(t.op, ast.Not):
+          t, p = t.operand, not p
+        if is_paramspec_test(t):
+          is_ps.append(p)
+      if len(set(is_ps)) != 1:
+        raise AnalysisError("_FormatTypeParams: constructor guard not understood")
+      cls = "ParamSpec" if is_ps[0] else "TypeParameter"
+      if ctors.setdefault(lit, (cls, c.lineno))[0] != cls:
+        raise AnalysisError(
+            f"_FormatTypeParams: {lit!r} is the constructor of two node classes")
   vc = amod.func("_GeneratePytdVisitor.visit_Call")
   kinds = None
   for n in walk_no_nested(vc):
@@ -1223,6 +1670,10 @@ def r5_8(ctx):
 
 
 # -- R5.9 ------------------------------------------------------------------------
+
+def _inside(outer, node):
+  return any(n is node for n in ast.walk(outer))
+
 
 def _root_name(node):
   while isinstance(node, (ast.Subscript, ast.Attribute, ast.Call)):
@@ -1269,13 +1720,30 @@ def r5_9(ctx):
                if call.args else None})
   if n == 0:
     raise AnalysisError("printer.py: no tuple-unpacked split calls found")
-  fn = pmod.func("PrintVisitor.VisitCallableType")
-  heads = [x for x in fn.body if isinstance(x, ast.If)]
-  if len(heads) != 1:
+  fn = _pv_method(pmod, "VisitCallableType")
+  # every decision the method takes, however the arms are laid out (an
+  # if/elif chain, `if ..: return` one after the other, conditional
+  # expressions): each must be one of the two recognised form tests
+  tests = []
+  for x in walk_no_nested(fn):
+    if isinstance(x, (ast.If, ast.IfExp)):
+      tests.append(x.test)
+    elif isinstance(x, (ast.While, ast.Match, ast.Try, ast.Assert)) or \
+        (isinstance(x, ast.comprehension) and x.ifs) or \
+        (isinstance(x, ast.BoolOp) and not any(
+            isinstance(a, (ast.If, ast.IfExp)) and _inside(a.test, x)
+            for a in walk_no_nested(fn))):
+      raise AnalysisError(
+          f"VisitCallableType: decision outside an if / conditional "
+          f"expression not understood: {src(x)[:60]}")
+    elif isinstance(x, ast.Call) and self_callee(pmod, "PrintVisitor", x) is not None:
+      raise AnalysisError(
+          f"VisitCallableType: the form may be chosen in {src(x.func)}: not followed")
+  if not tests:
     raise AnalysisError("VisitCallableType: if/elif chain not found")
-  arms, _ = if_chain(heads[0])
+  tests.sort(key=lambda t: (t.lineno, t.col_offset))
   seen = set()
-  for test, _body in arms:
+  for test in tests:
     text = src(test)
     if "_paramspec_names" in text:
       label = "paramspec-form"
@@ -1320,13 +1788,90 @@ def r5_9(ctx):
 
 # -- R5.10 -----------------------------------------------------------------------
 
-def _mentions(expr, tainted):
-  for n in ast.walk(expr):
-    if isinstance(n, ast.Name) and n.id in tainted:
+class _KeywordTaint:
+  """Which locals of a PrintVisitor method carry text derived from the class
+  keywords (`<node>.keywords`), across calls to methods of the same class.
+
+  Flow-insensitive: a local is tainted when any binding of it mentions a
+  tainted local, `<node>.keywords`, or a `self.<m>(..)` call whose *return
+  value* is tainted given the taint of the arguments actually passed (the
+  callee is analysed with its own parameter names; an argument that is
+  handed over but never reaches the callee's result does not taint it).
+  """
+
+  def __init__(self, pmod):
+    self.pmod = pmod
+    self.memo = {}
+
+  def analyse(self, fn, nodes, tparams):
+    """(tainted locals, is some returned value tainted) for `fn` called with
+    the node in parameters `nodes` and tainted parameters `tparams`."""
+    key = (fn, frozenset(nodes), frozenset(tparams))
+    if key in self.memo:
+      return self.memo[key]
+    if len(self.memo) > 200:
+      raise AnalysisError("class-keyword taint: call graph too large")
+    self.memo[key] = (frozenset(tparams), False)    # recursion: least fixpoint
+    tainted, changed = set(tparams), True
+    while changed:
+      changed = False
+      for n in walk_no_nested(fn):
+        new = []
+        if isinstance(n, (ast.Assign, ast.AugAssign, ast.AnnAssign)) and \
+            n.value is not None and self.mentions(n.value, tainted, nodes):
+          tg = n.targets if isinstance(n, ast.Assign) else [n.target]
+          new = [x.id for t in tg for x in ast.walk(t) if isinstance(x, ast.Name)]
+        elif isinstance(n, (ast.For, ast.comprehension)) and \
+            self.mentions(n.iter, tainted, nodes):
+          new = [x.id for x in ast.walk(n.target) if isinstance(x, ast.Name)]
+        elif isinstance(n, ast.Call) and isinstance(n.func, ast.Attribute) and \
+            n.func.attr in ("append", "extend", "insert", "add", "update") and \
+            isinstance(n.func.value, ast.Name) and \
+            any(self.mentions(a, tainted, nodes) for a in n.args):
+          new = [n.func.value.id]
+        for x in new:
+          if x not in tainted:
+            tainted.add(x)
+            changed = True
+    ret = any(r.value is not None and self.mentions(r.value, tainted, nodes)
+              for r in walk_no_nested(fn) if isinstance(r, ast.Return))
+    self.memo[key] = (frozenset(tainted), ret)
+    return self.memo[key]
+
+  def call_taint(self, call, tainted, nodes):
+    """(callee, node params, tainted params) of a followed `self.<m>(..)`."""
+    callee = self_callee(self.pmod, "PrintVisitor", call)
+    if callee is None:
+      return None
+    bind = bind_args(callee, call)
+    if bind is None:
+      raise AnalysisError(
+          f"class-keyword taint: call {src(call)[:60]} does not fit "
+          f"{callee.name}'s signature")
+    hn = {p for p, a in bind.items() if isinstance(a, ast.Name) and a.id in nodes}
+    tp = {p for p, a in bind.items() if self.mentions(a, tainted, nodes)}
+    return callee, hn, tp
+
+  def mentions(self, expr, tainted, nodes):
+    if isinstance(expr, ast.Name):
+      return expr.id in tainted
+    if isinstance(expr, ast.Attribute) and expr.attr == "keywords" and \
+        isinstance(expr.value, ast.Name) and expr.value.id in nodes:
       return True
-    if isinstance(n, ast.Attribute) and dotted(n) == "node.keywords":
-      return True
-  return False
+    if isinstance(expr, ast.Call):
+      ct = self.call_taint(expr, tainted, nodes)
+      if ct is not None:
+        return self.analyse(*ct)[1]
+    if isinstance(expr, ast.Lambda):
+      return False
+    return any(self.mentions(c, tainted, nodes) for c in ast.iter_child_nodes(expr))
+
+
+def _functional_typeddict_returns(fn):
+  """return statements whose text contains the literal `TypedDict(`."""
+  return [n for n in walk_no_nested(fn) if isinstance(n, ast.Return)
+          and n.value is not None
+          and any("TypedDict(" in (_const_str(c) or "") for c in ast.walk(n.value))]
 
 
 @rule("R5.10", "C05", floor=1)
@@ -1355,33 +1900,40 @@ def r5_10(ctx):
   if not reader_kws:
     raise AnalysisError("new_typed_dict: accepted keyword test not understood")
   pmod = get_module(ctx, PRINTER)
-  fn = pmod.func("PrintVisitor.VisitClass")
-  rets = [n for n in walk_no_nested(fn) if isinstance(n, ast.Return)
-          and isinstance(n.value, ast.JoinedStr)
-          and any("TypedDict(" in str(v.value) for v in n.value.values
-                  if isinstance(v, ast.Constant))]
-  if len(rets) != 1:
-    raise AnalysisError("VisitClass: functional TypedDict return not found")
-  tainted, changed = set(), True
-  while changed:
-    changed = False
+  fn = _pv_method(pmod, "VisitClass")
+  taint = _KeywordTaint(pmod)
+  nodes = {_node_param(fn)}
+  tainted, _ = taint.analyse(fn, nodes, set())
+  rets = _functional_typeddict_returns(fn)
+  where_fn = fn
+  if not rets:
+    # the functional form may be built by a helper whose result VisitClass
+    # returns: `x = self._Helper(node, ..)` ... `return x`, or returned directly
+    returned = {r.value.id for r in walk_no_nested(fn)
+                if isinstance(r, ast.Return) and isinstance(r.value, ast.Name)}
+    sites = []
     for n in walk_no_nested(fn):
-      new = []
-      if isinstance(n, (ast.Assign, ast.AugAssign)) and _mentions(n.value, tainted):
-        tg = n.targets if isinstance(n, ast.Assign) else [n.target]
-        new = [x.id for t in tg for x in ast.walk(t) if isinstance(x, ast.Name)]
-      elif isinstance(n, ast.For) and _mentions(n.iter, tainted):
-        new = [x.id for x in ast.walk(n.target) if isinstance(x, ast.Name)]
-      elif isinstance(n, ast.Call) and isinstance(n.func, ast.Attribute) and \
-          n.func.attr in ("append", "extend") and \
-          isinstance(n.func.value, ast.Name) and \
-          any(_mentions(a, tainted) for a in n.args):
-        new = [n.func.value.id]
-      for x in new:
-        if x not in tainted:
-          tainted.add(x)
-          changed = True
-  prints_kw = _mentions(rets[0].value, tainted)
+      call = None
+      if isinstance(n, ast.Return) and isinstance(n.value, ast.Call):
+        call = n.value
+      elif isinstance(n, ast.Assign) and len(n.targets) == 1 and \
+          isinstance(n.targets[0], ast.Name) and n.targets[0].id in returned and \
+          once_bound_anywhere(fn, n.targets[0].id) is n:
+        call = n.value
+      callee = self_callee(pmod, "PrintVisitor", call)
+      if callee is not None and _functional_typeddict_returns(callee):
+        sites.append((call, callee))
+    if len(sites) != 1:
+      raise AnalysisError("VisitClass: functional TypedDict return not found")
+    call, callee = sites[0]
+    _, nodes, tparams = taint.call_taint(call, tainted, nodes)
+    tainted, _ = taint.analyse(callee, nodes, tparams)
+    rets = _functional_typeddict_returns(callee)
+    where_fn = callee
+  if len(rets) != 1:
+    raise AnalysisError(
+        f"{where_fn.name}: expected one functional TypedDict return, found {len(rets)}")
+  prints_kw = taint.mentions(rets[0].value, tainted, nodes)
   for k, (where, line) in sorted(emitted.items()):
     if k not in reader_kws:
       continue  # rejected by the reader anyway: R5.7's business
@@ -1590,6 +2142,10 @@ def _nonempty(e, env):
   if isinstance(e, ast.IfExp):
     t = _truth(e.test, env)
     return ("or", [("and", [t, _nonempty(e.body, env)]), ("and", [("not", t), _nonempty(e.orelse, env)])])
+  if isinstance(e, ast.Call) and "@inline" in env:
+    f = env["@inline"][0].result_nonempty(e, env)
+    if f is not None:
+      return f
   if isinstance(e, ast.Call) and not e.keywords:
     d = dotted(e.func)
     if d in ("list", "tuple", "sorted") and len(e.args) == 1:
@@ -1649,6 +2205,148 @@ def _is_ellipsis_suffix(st):
   return None
 
 
+_MUTATORS = frozenset({"append", "extend", "insert", "remove", "pop", "clear",
+                        "sort", "reverse", "add", "update", "discard",
+                        "setdefault", "popitem"})
+
+
+def _stored_roots(fn):
+  """Names `fn` may modify in place: targets of subscript/attribute stores,
+  augmented assignments and mutating method calls (by root name)."""
+  out = set()
+  for n in ast.walk(fn):
+    if isinstance(n, (ast.Subscript, ast.Attribute)) and not isinstance(n.ctx, ast.Load):
+      out.add(_root_name(n))
+    elif isinstance(n, ast.AugAssign):
+      out.add(_root_name(n.target))
+    elif isinstance(n, ast.Call) and isinstance(n.func, ast.Attribute) and \
+        n.func.attr in _MUTATORS:
+      out.add(_root_name(n.func.value))
+  out.discard(None)
+  return out
+
+
+class _Inliner:
+  """Non-emptiness of the list a `self.<helper>(..)` call returns, by symbolic
+  execution of the helper (resolved through the local MRO) with the same
+  engine as the method itself.
+
+  An argument that is the caller's own parameter or an attribute chain on it
+  (`node`, `node.classes`) is substituted for the helper's parameter, so the
+  helper's tests speak about the same atoms as the caller's whatever the
+  parameter is called.  Every other local of the helper (and any parameter
+  bound to something else) is renamed apart, so that it cannot be confused
+  with a local or atom of the caller.  The result is the disjunction over the
+  helper's returning paths of (path condition and returned list non-empty).
+  Anything the engine cannot execute makes the result unknown, never a guess.
+  """
+
+  MAX_DEPTH = 2
+
+  def __init__(self, pmod, clsname):
+    self.pmod, self.clsname, self.n, self._mut = pmod, clsname, 0, {}
+
+  def callee(self, call):
+    return self_callee(self.pmod, self.clsname, call)
+
+  def mutated(self, fn, depth=0):
+    """Parameters / locals of `fn` that may be modified in place by `fn` or,
+    handed on as an argument, by a method of the class it calls."""
+    if (fn, depth) in self._mut:
+      return self._mut[(fn, depth)]
+    out = _stored_roots(fn)
+    for c in calls_in(fn):
+      h = self.callee(c)
+      if h is None:
+        continue
+      b = bind_args(h, c)
+      if b is None or depth >= 3:
+        out |= {_root_name(a) for a in list(c.args) + [k.value for k in c.keywords]}
+        continue
+      m = self.mutated(h, depth + 1)
+      out |= {_root_name(a) for prm, a in b.items() if prm in m}
+    out.discard(None)
+    self._mut[(fn, depth)] = out
+    return out
+
+  def result_nonempty(self, call, env):
+    callee = self.callee(call)
+    if callee is None:
+      return None
+    depth = env["@inline"][1]
+    bind = bind_args(callee, call)
+    if bind is None or depth >= self.MAX_DEPTH:
+      return _unk(call, env)
+    if any(_is_ellipsis_suffix(n) for n in ast.walk(callee)):
+      raise AnalysisError(f"the ' ...' suffix is added in helper {callee.name}")
+    self.n += 1
+    tag = f"'{self.n}"
+    mutated = self.mutated(callee)
+    local = {a.arg for a in callee.args.posonlyargs + callee.args.args
+             + callee.args.kwonlyargs} | {
+                 n.id for n in ast.walk(callee) if isinstance(n, ast.Name)
+                 and not isinstance(n.ctx, ast.Load)}
+    local.discard("self")
+    sub, henv = {}, {"@inline": (self, depth + 1)}
+    for prm, a in bind.items():
+      root = _root_name(a)
+      stable = dotted(a) is not None and root not in env
+      if prm in mutated and not isinstance(a, ast.Constant):
+        # the helper may change a list of the caller in place
+        raise AnalysisError(
+            f"helper {callee.name} modifies its argument `{src(a)[:40]}` in place")
+      rebound = any(isinstance(n, ast.Name) and n.id == prm
+                    and not isinstance(n.ctx, ast.Load) for n in ast.walk(callee))
+      if stable and not rebound:
+        sub[prm] = a
+      else:
+        henv[prm + tag] = _nonempty(a, env)
+    class Rewrite(ast.NodeTransformer):
+      def visit_Name(self, n):
+        if n.id in sub and isinstance(n.ctx, ast.Load):
+          return copy.deepcopy(sub[n.id])
+        if n.id in local:
+          return ast.copy_location(ast.Name(id=n.id + tag, ctx=n.ctx), n)
+        return n
+      def visit_FunctionDef(self, n):
+        return n
+      visit_AsyncFunctionDef = visit_Lambda = visit_ClassDef = visit_FunctionDef
+    body = [Rewrite().visit(copy.deepcopy(st)) for st in callee.body]
+    state = {"conds": [], "env": henv, "terms": {}, "dots": set()}
+    paths = []
+    try:
+      for ret, st in _class_paths(body, state):
+        if ret is None or ret.value is None:
+          val = _UNK
+        else:
+          val = _nonempty(ret.value, st["env"])
+        paths.append(("and", [f if pol else ("not", f) for f, pol in st["conds"]] + [val]))
+    except AnalysisError:
+      return _unk(call, env)
+    if not paths:
+      return _unk(call, env)
+    return paths[0] if len(paths) == 1 else ("or", paths)
+
+  def may_modify(self, call, env):
+    """Caller locals a `self.<m>(..)` call may change in place."""
+    callee = self.callee(call)
+    if callee is None:
+      return set()
+    args = list(call.args) + [k.value for k in call.keywords]
+    bind = bind_args(callee, call)
+    if bind is None:
+      hit = args
+    else:
+      mutated = self.mutated(callee)
+      hit = [a for prm, a in bind.items() if prm in mutated
+             and not isinstance(a, ast.Constant)]
+    for a in hit:
+      if not (isinstance(a, ast.Name) and a.id in env):
+        raise AnalysisError(
+            f"{src(call)[:60]} may modify `{src(a)[:40]}` in place")
+    return {a.id for a in hit}
+
+
 def _class_paths(block, state):
   """Symbolic paths through a Visit method: yields (return node, state).
 
@@ -1680,6 +2378,8 @@ def _class_paths(block, state):
   if isinstance(st, (ast.For, ast.While)):
     if any(_is_ellipsis_suffix(n) for n in ast.walk(st)):
       raise AnalysisError("the ' ...' suffix is added inside a loop")
+    if any(isinstance(n, ast.Return) for n in walk_no_nested(st)):
+      raise AnalysisError("class-body analysis: return inside a loop")
     for n in _names_stored(st):
       state["env"][n] = _UNK
       state["terms"].pop(n, None)
@@ -1729,6 +2429,10 @@ def _class_paths(block, state):
           and c.func.value.id in state["env"]:
         state["env"][c.func.value.id] = _UNK
         state["terms"].pop(c.func.value.id, None)
+      elif "@inline" in state["env"]:
+        for name in state["env"]["@inline"][0].may_modify(c, state["env"]):
+          state["env"][name] = _UNK
+          state["terms"].pop(name, None)
   elif not isinstance(st, (ast.Pass, ast.Assert, ast.AnnAssign)):
     raise AnalysisError(f"class-body analysis: unsupported statement {type(st).__name__}")
   yield from _class_paths(rest, state)
@@ -1748,14 +2452,15 @@ def r5_13(ctx):
   """
   import itertools
   pmod = get_module(ctx, PRINTER)
-  fn = pmod.func("PrintVisitor.VisitClass")
+  fn = _pv_method(pmod, "VisitClass")
   headers = {h for h in (_is_ellipsis_suffix(n) for n in walk_no_nested(fn)) if h}
   if len(headers) != 1:
     raise AnalysisError(
         f"VisitClass: expected one header list that gets the ' ...' suffix, found {sorted(headers)}")
   header = headers.pop()
-  init = {"conds": [], "env": {}, "terms": {}, "dots": set()}
-  node = fn.args.args[1].arg
+  init = {"conds": [], "env": {"@inline": (_Inliner(pmod, "PrintVisitor"), 0)},
+          "terms": {}, "dots": set()}
+  node = _node_param(fn)
   witnesses, bare_empty, undecided, members, segs, n_paths = [], [], set(), set(), set(), 0
   for ret, st in _class_paths(fn.body, init):
     if ret is None or ret.value is None:
@@ -1853,6 +2558,68 @@ _VISITCLASS_TAIL = (
     "      classes = []\n"
     "      methods = []\n"
     "    lines = decorators + header + slots + classes + constants + methods\n")
+
+_VISITFUNCTION = (
+    "  def VisitFunction(self, node):\n"
+    "    \"\"\"Visit function, producing multi-line string (one for each signature).\"\"\"\n"
+    "    function_name = node.name\n"
+    "    if self.old_node.decorators:\n"
+    "      decorators = self._ProcessDecorators(self.old_node)\n"
+    "      decorators = \"\\n\".join(decorators) + \"\\n\"\n"
+    "    else:\n"
+    "      decorators = \"\"\n"
+    "    if node.is_final:\n"
+    "      decorators += \"@\" + self._FromTyping(\"final\") + \"\\n\"\n"
+    "    if node.kind == pytd.MethodKind.STATICMETHOD and function_name != \"__new__\":\n"
+    "      decorators += \"@staticmethod\\n\"\n"
+    "    elif (\n"
+    "        node.kind == pytd.MethodKind.CLASSMETHOD\n"
+    "        and function_name != \"__init_subclass__\"\n"
+    "    ):\n"
+    "      decorators += \"@classmethod\\n\"\n"
+    "    elif node.kind == pytd.MethodKind.PROPERTY:\n"
+    "      decorators += \"@property\\n\"\n"
+    "    if node.is_abstract:\n"
+    "      decorators += \"@abstractmethod\\n\"\n"
+    "    if node.is_coroutine:\n"
+    "      decorators += \"@coroutine\\n\"\n"
+    "    if len(node.signatures) > 1:\n"
+    "      decorators += \"@\" + self._FromTyping(\"overload\") + \"\\n\"\n"
+    "    signatures = \"\\n\".join(\n"
+    "        decorators + \"def \" + function_name + sig for sig in node.signatures\n"
+    "    )\n"
+    "    return signatures\n")
+
+# the same method with the decorator lines built by a helper whose node
+# parameter, name local and result local are spelled differently, guard
+# clauses instead of the if/else, and an f-string instead of the `+` chain
+_VISITFUNCTION_SPLIT = (
+    "  def _FunctionDecorators(self, func):\n"
+    "    method_name = func.name\n"
+    "    lines = \"\"\n"
+    "    if self.old_node.decorators:\n"
+    "      declared = self._ProcessDecorators(self.old_node)\n"
+    "      lines = \"\\n\".join(declared) + \"\\n\"\n"
+    "    if func.is_final:\n"
+    "      lines += \"@\" + self._FromTyping(\"final\") + \"\\n\"\n"
+    "    if func.kind == pytd.MethodKind.STATICMETHOD and method_name != \"__new__\":\n"
+    "      lines += \"@staticmethod\\n\"\n"
+    "    elif func.kind == pytd.MethodKind.CLASSMETHOD:\n"
+    "      if not method_name == \"__init_subclass__\":\n"
+    "        lines += \"@classmethod\\n\"\n"
+    "    elif func.kind == pytd.MethodKind.PROPERTY:\n"
+    "      lines += \"@property\\n\"\n"
+    "    if func.is_abstract:\n"
+    "      lines += \"@abstractmethod\\n\"\n"
+    "    if func.is_coroutine:\n"
+    "      lines += \"@coroutine\\n\"\n"
+    "    if len(func.signatures) > 1:\n"
+    "      lines += \"@\" + self._FromTyping(\"overload\") + \"\\n\"\n"
+    "    return lines\n"
+    "\n"
+    "  def VisitFunction(self, node):\n"
+    "    decorators = self._FunctionDecorators(node)\n"
+    "    return \"\\n\".join(f\"{decorators}def {node.name}{sig}\" for sig in node.signatures)\n")
 
 VARIANTS = [
     # R5.1
@@ -2144,4 +2911,175 @@ VARIANTS = [
             "      constants = [self.INDENT + m for m in node.constants]\n"
             "      methods = [self.INDENT + m for f in node.methods for m in f.splitlines()]\n"
             "    lines = decorators + header + slots + classes + constants + methods\n"},
+    # ---- behaviour-preserving refactorings (benign/C05-rN/patch.diff: verified
+    # behaviour-identical) as must-silent twins, and the same refactored shape
+    # carrying a defect (benign/C05-rN/with_defect_*.diff) as must-fire; the
+    # with_<shape>.diff files are refactored shapes that must stay undecided
+    {"name": "twin-benign-C05-r1-printer-methods-split-into-helpers", "rule": "*",
+     "patch": "benign/C05-r1/patch.diff", "expect": "silent"},
+    {"name": "twin-benign-C05-r2-early-returns-and-comprehensions", "rule": "*",
+     "patch": "benign/C05-r2/patch.diff", "expect": "silent"},
+    {"name": "twin-benign-C05-r3-parser-pipeline-renamed-and-chained", "rule": "*",
+     "patch": "benign/C05-r3/patch.diff", "expect": "silent"},
+    {"name": "twin-benign-C05-r4-verifier-mixin-and-hoisted-visitor", "rule": "*",
+     "patch": "benign/C05-r4/patch.diff", "expect": "silent"},
+    # R5.3 / R5.6: decorators built in a helper VisitFunction calls
+    {"name": "r1-helper-emits-abstract-decorator-unknown-to-parser", "rule": "R5.3",
+     "patch": "benign/C05-r1/with_defect_abstract_spelling.diff", "expect": "fire"},
+    {"name": "r1-helper-property-spelled-differently", "rule": "R5.3",
+     "patch": "benign/C05-r1/with_defect_property_spelling.diff", "expect": "fire"},
+    {"name": "r1-helper-exempts-class_getitem", "rule": "R5.6",
+     "patch": "benign/C05-r1/with_defect_extra_exemption.diff", "expect": "fire"},
+    {"name": "r1-helper-assigns-decorator-text", "rule": "R5.3",
+     "patch": "benign/C05-r1/with_decorator_assigned_not_appended.diff", "expect": "error"},
+    {"name": "r1-helper-returns-two-different-values", "rule": "R5.3",
+     "patch": "benign/C05-r1/with_helper_returning_two_values.diff", "expect": "error"},
+    {"name": "twin-decorators-in-helper-with-renamed-node-parameter", "rule": "R5.3",
+     "file": PRINTER, "expect": "silent", "old": _VISITFUNCTION, "new": _VISITFUNCTION_SPLIT},
+    {"name": "decorators-in-helper-with-renamed-node-parameter-abstract-misspelled",
+     "rule": "R5.3", "file": PRINTER, "expect": "fire", "old": _VISITFUNCTION,
+     "new": _VISITFUNCTION_SPLIT.replace("@abstractmethod", "@abstract")},
+    {"name": "decorators-in-helper-with-renamed-node-parameter-extra-exemption",
+     "rule": "R5.6", "file": PRINTER, "expect": "fire", "old": _VISITFUNCTION,
+     "new": _VISITFUNCTION_SPLIT.replace(
+         "func.kind == pytd.MethodKind.STATICMETHOD and method_name != \"__new__\"",
+         "func.kind == pytd.MethodKind.STATICMETHOD and method_name not in (\"__new__\", \"__call__\")")},
+    {"name": "decorator-helper-tests-kind-of-another-object", "rule": "R5.3",
+     "file": PRINTER, "expect": "error", "old": _VISITFUNCTION,
+     "new": _VISITFUNCTION_SPLIT.replace("func.kind == pytd.MethodKind.PROPERTY",
+                                         "self.old_node.kind == pytd.MethodKind.PROPERTY")},
+    {"name": "kind-decorators-from-an-unrecognised-helper-expression", "rule": "R5.3",
+     "file": PRINTER, "expect": "error", "old": _VISITFUNCTION,
+     "new": _VISITFUNCTION_SPLIT.replace(
+         "    decorators = self._FunctionDecorators(node)\n",
+         "    decorators = \"\" + self._FunctionDecorators(node)\n")},
+    # R5.3: the `None` abbreviation by its path condition
+    {"name": "twin-none-abbreviation-as-guard-clause", "rule": "R5.3", "file": PRINTER,
+     "expect": "silent",
+     "old": "    if node_name == \"NoneType\":\n      # PEP 484 allows this special abbreviation.\n      return \"None\"\n    else:\n      return node_name\n",
+     "new": "    if node_name != \"NoneType\":\n      return node_name\n    return \"None\"\n"},
+    {"name": "twin-none-abbreviation-as-conditional-expression", "rule": "R5.3", "file": PRINTER,
+     "expect": "silent",
+     "old": "    if node_name == \"NoneType\":\n      # PEP 484 allows this special abbreviation.\n      return \"None\"\n    else:\n      return node_name\n",
+     "new": "    return node_name if not node_name == \"NoneType\" else \"None\"\n"},
+    {"name": "none-abbreviation-guard-clause-tests-other-name", "rule": "R5.3", "file": PRINTER,
+     "expect": "fire",
+     "old": "    if node_name == \"NoneType\":\n      # PEP 484 allows this special abbreviation.\n      return \"None\"\n    else:\n      return node_name\n",
+     "new": "    if node_name != \"NoneTypes\":\n      return node_name\n    return \"None\"\n"},
+    {"name": "none-abbreviation-conditional-expression-tests-other-name", "rule": "R5.3",
+     "file": PRINTER, "expect": "fire",
+     "old": "    if node_name == \"NoneType\":\n      # PEP 484 allows this special abbreviation.\n      return \"None\"\n    else:\n      return node_name\n",
+     "new": "    return \"None\" if node_name == \"Nonetype\" else node_name\n"},
+    {"name": "none-abbreviation-under-an-inequality", "rule": "R5.3", "file": PRINTER,
+     "expect": "error",
+     "old": "    if node_name == \"NoneType\":\n      # PEP 484 allows this special abbreviation.\n      return \"None\"\n    else:\n      return node_name\n",
+     "new": "    if node_name != \"NoneType\":\n      return \"None\"\n    return node_name\n"},
+    {"name": "r2-none-abbreviation-tests-other-name", "rule": "R5.3",
+     "patch": "benign/C05-r2/with_defect_none_abbreviation_other_name.diff", "expect": "fire"},
+    # R5.2: forwarded typing suffix in a helper; conditional literal argument
+    {"name": "r2-forwarded-suffix-without-typing-guard", "rule": "R5.2",
+     "patch": "benign/C05-r2/with_forwarded_suffix_without_typing_guard.diff", "expect": "error"},
+    {"name": "r2-conditional-ctor-name-typo", "rule": "R5.2",
+     "patch": "benign/C05-r2/with_defect_ctor_typo.diff", "expect": "fire"},
+    # R5.8: constructor chosen by a conditional expression
+    {"name": "twin-ctor-name-as-conditional-argument", "rule": "R5.8", "file": PRINTER,
+     "expect": "silent",
+     "old": "      if isinstance(t, pytd.ParamSpec):\n        typename = self._LookupTypingMember(\"ParamSpec\")\n      else:\n        typename = self._LookupTypingMember(\"TypeVar\")\n",
+     "new": "      typename = self._LookupTypingMember(\n          \"TypeVar\" if not isinstance(t, pytd.ParamSpec) else \"ParamSpec\"\n      )\n"},
+    {"name": "ctor-name-conditional-argument-arms-swapped", "rule": "R5.8", "file": PRINTER,
+     "expect": "fire",
+     "old": "      if isinstance(t, pytd.ParamSpec):\n        typename = self._LookupTypingMember(\"ParamSpec\")\n      else:\n        typename = self._LookupTypingMember(\"TypeVar\")\n",
+     "new": "      typename = self._LookupTypingMember(\n          \"TypeVar\" if isinstance(t, pytd.ParamSpec) else \"ParamSpec\"\n      )\n"},
+    {"name": "ctor-name-conditional-on-something-else", "rule": "R5.8", "file": PRINTER,
+     "expect": "error",
+     "old": "      if isinstance(t, pytd.ParamSpec):\n        typename = self._LookupTypingMember(\"ParamSpec\")\n      else:\n        typename = self._LookupTypingMember(\"TypeVar\")\n",
+     "new": "      typename = self._LookupTypingMember(\n          \"ParamSpec\" if t.name.startswith(\"P\") else \"TypeVar\"\n      )\n"},
+    {"name": "r2-conditional-ctor-arms-swapped", "rule": "R5.8",
+     "patch": "benign/C05-r2/with_defect_ctor_arms_swapped.diff", "expect": "fire"},
+    # R5.9: Callable form tests outside an if/elif chain
+    {"name": "twin-callable-forms-as-early-returns", "rule": "R5.9", "file": PRINTER,
+     "expect": "silent",
+     "old": "    elif node.args and isinstance(self.old_node.args[0], pytd.Concatenate):\n      args = \", \".join(node.args)\n      return f\"{typ}[{args}, {node.ret}]\"\n    else:\n      args = \", \".join(node.args)\n      return f\"{typ}[[{args}], {node.ret}]\"\n",
+     "new": "    args = \", \".join(node.args)\n    if node.args and isinstance(self.old_node.args[0], pytd.Concatenate):\n      return f\"{typ}[{args}, {node.ret}]\"\n    return f\"{typ}[[{args}], {node.ret}]\"\n"},
+    {"name": "callable-concatenate-form-by-substring-in-conditional-expression", "rule": "R5.9",
+     "file": PRINTER, "expect": "fire",
+     "old": "    elif node.args and isinstance(self.old_node.args[0], pytd.Concatenate):\n      args = \", \".join(node.args)\n      return f\"{typ}[{args}, {node.ret}]\"\n    else:\n      args = \", \".join(node.args)\n      return f\"{typ}[[{args}], {node.ret}]\"\n",
+     "new": "    args = \", \".join(node.args)\n    inner = args if node.args and \"Concatenate\" in node.args[0] else f\"[{args}]\"\n    return f\"{typ}[{inner}, {node.ret}]\"\n"},
+    {"name": "callable-form-chosen-by-short-circuit", "rule": "R5.9", "file": PRINTER,
+     "expect": "error",
+     "old": "    elif node.args and isinstance(self.old_node.args[0], pytd.Concatenate):\n      args = \", \".join(node.args)\n      return f\"{typ}[{args}, {node.ret}]\"\n    else:\n      args = \", \".join(node.args)\n      return f\"{typ}[[{args}], {node.ret}]\"\n",
+     "new": "    args = \", \".join(node.args)\n    bare = node.args and \"Concatenate\" in node.args[0]\n    return f\"{typ}[{args}, {node.ret}]\" * bool(bare) or f\"{typ}[[{args}], {node.ret}]\"\n"},
+    {"name": "r2-concatenate-form-by-substring", "rule": "R5.9",
+     "patch": "benign/C05-r2/with_defect_concatenate_substring.diff", "expect": "fire"},
+    {"name": "r2-paramspec-form-by-substring", "rule": "R5.9",
+     "patch": "benign/C05-r2/with_defect_paramspec_substring.diff", "expect": "fire"},
+    {"name": "r2-callable-arm-unknown-text-predicate", "rule": "R5.9",
+     "patch": "benign/C05-r2/with_callable_unknown_text_predicate.diff", "expect": "error"},
+    # R5.10: functional TypedDict form built by a helper
+    {"name": "r1-functional-form-helper-drops-keywords", "rule": "R5.10",
+     "patch": "benign/C05-r1/with_defect_helper_drops_keywords.diff", "expect": "fire"},
+    {"name": "r1-functional-form-helper-not-given-keywords", "rule": "R5.10",
+     "patch": "benign/C05-r1/with_defect_caller_passes_no_keywords.diff", "expect": "fire"},
+    # R5.13: body segments built by helpers
+    {"name": "r1-slots-forgotten-in-emptiness-test", "rule": "R5.13",
+     "patch": "benign/C05-r1/with_defect_slots_forgotten.diff", "expect": "fire"},
+    {"name": "r1-emptiness-test-on-slots-truthiness", "rule": "R5.13",
+     "patch": "benign/C05-r1/with_defect_slots_truthiness_test.diff", "expect": "fire"},
+    {"name": "r1-methods-indented-from-the-wrong-list", "rule": "R5.13",
+     "patch": "benign/C05-r1/with_defect_methods_from_wrong_list.diff", "expect": "fire"},
+    {"name": "r1-helper-fills-a-body-list-in-place", "rule": "R5.13",
+     "patch": "benign/C05-r1/with_helper_filling_list_in_place.diff", "expect": "error"},
+    # R5.5: chained visits / hoisted visitor
+    {"name": "twin-canonical_pyi-visits-chained", "rule": "R5.5", "file": PARSER,
+     "expect": "silent",
+     "old": "  ast = ast.Visit(visitors.ClassTypeToNamedType())\n  ast = ast.Visit(visitors.CanonicalOrderingVisitor())\n",
+     "new": "  ast = ast.Visit(visitors.ClassTypeToNamedType()).Visit(\n      visitors.CanonicalOrderingVisitor()\n  )\n"},
+    {"name": "canonical_pyi-chained-visits-without-ordering", "rule": "R5.5", "file": PARSER,
+     "expect": "fire",
+     "old": "  ast = parse_string(pyi, options=options)\n  ast = ast.Visit(visitors.ClassTypeToNamedType())\n  ast = ast.Visit(visitors.CanonicalOrderingVisitor())\n",
+     "new": "  ast = parse_string(pyi, options=options).Visit(\n      visitors.ClassTypeToNamedType()\n  )\n"},
+    {"name": "canonical_pyi-unknown-transformation", "rule": "R5.5", "file": PARSER,
+     "expect": "error",
+     "old": "  ast = ast.Visit(visitors.CanonicalOrderingVisitor())\n  ast.Visit(visitors.VerifyVisitor())",
+     "new": "  ast = ast.Visit(visitors.CanonicalOrderingVisitor())\n  ast = ast.Visit(visitors.AdjustTypeParameters())\n  ast.Visit(visitors.VerifyVisitor())"},
+    {"name": "r3-chained-visits-without-ordering", "rule": "R5.5",
+     "patch": "benign/C05-r3/with_defect_ordering_dropped.diff", "expect": "fire"},
+    {"name": "r3-verify-dropped", "rule": "R5.5",
+     "patch": "benign/C05-r3/with_defect_verify_dropped.diff", "expect": "fire"},
+    {"name": "r3-verify-before-the-last-transformation", "rule": "R5.5",
+     "patch": "benign/C05-r3/with_defect_verify_before_ordering.diff", "expect": "fire"},
+    {"name": "r3-unknown-visitor-in-the-chain", "rule": "R5.5",
+     "patch": "benign/C05-r3/with_unknown_visitor_in_chain.diff", "expect": "error"},
+    {"name": "twin-Print-visitor-hoisted-into-a-local", "rule": "R5.5", "file": PYTD_UTILS,
+     "expect": "silent",
+     "old": "  return ast.Visit(printer.PrintVisitor(multiline_args))",
+     "new": "  v = printer.PrintVisitor(multiline_args)\n  return ast.Visit(v)"},
+    {"name": "Print-uses-another-visitor", "rule": "R5.5", "file": PYTD_UTILS, "expect": "fire",
+     "old": "  return ast.Visit(printer.PrintVisitor(multiline_args))",
+     "new": "  return ast.Visit(visitors.CanonicalOrderingVisitor())"},
+    {"name": "Print-hoisted-local-is-another-visitor", "rule": "R5.5", "file": PYTD_UTILS,
+     "expect": "fire",
+     "old": "  return ast.Visit(printer.PrintVisitor(multiline_args))",
+     "new": "  v = visitors.CanonicalOrderingVisitor()\n  return ast.Visit(v)"},
+    {"name": "Print-visitor-local-bound-on-two-paths", "rule": "R5.5", "file": PYTD_UTILS,
+     "expect": "error",
+     "old": "  return ast.Visit(printer.PrintVisitor(multiline_args))",
+     "new": "  v = printer.PrintVisitor(multiline_args)\n  if multiline_args:\n    v = visitors.CanonicalOrderingVisitor()\n  return ast.Visit(v)"},
+    {"name": "r4-Print-hoisted-local-is-another-visitor", "rule": "R5.5",
+     "patch": "benign/C05-r4/with_defect_print_other_visitor.diff", "expect": "fire"},
+    {"name": "r4-Print-visitor-local-rebound", "rule": "R5.5",
+     "patch": "benign/C05-r4/with_print_visitor_rebound.diff", "expect": "error"},
+    # R5.1/R5.2: printer methods inherited from a module-local mixin
+    {"name": "twin-visit-methods-moved-to-a-local-mixin", "rule": "R5.1", "expect": "silent",
+     "edits": [
+         (PRINTER, "class PrintVisitor(base_visitor.Visitor):\n",
+          "class _SimpleTypesPrinter:\n\n  def VisitLateType(self, node):\n    return self.VisitNamedType(node)\n\n\n"
+          "class PrintVisitor(_SimpleTypesPrinter, base_visitor.Visitor):\n"),
+         (PRINTER, "  def VisitLateType(self, node):\n    return self.VisitNamedType(node)\n\n  def VisitClassType", "  def VisitClassType")]},
+    {"name": "visit-method-moved-to-a-mixin-that-is-not-a-base", "rule": "R5.1", "expect": "fire",
+     "edits": [
+         (PRINTER, "class PrintVisitor(base_visitor.Visitor):\n",
+          "class _SimpleTypesPrinter:\n\n  def VisitLateType(self, node):\n    return self.VisitNamedType(node)\n\n\n"
+          "class PrintVisitor(base_visitor.Visitor):\n"),
+         (PRINTER, "  def VisitLateType(self, node):\n    return self.VisitNamedType(node)\n\n  def VisitClassType", "  def VisitClassType")]},
 ]
